@@ -48,7 +48,9 @@ Record pcoord := mkpc {
 
 Inductive coord :=
   | CNode (p : pcoord) (name_kw : bool)             (* .node is a document node; name_kw: path_segment is [name()] *)
-  | CList (cs : list coord) (p : pcoord) (name_kw : bool)   (* .node is a NON-EMPTY list of NodeCoords (Collector) *)
+  | CList (cs : list coord) (p : pcoord) (name_kw : bool)   (* .node is a list of NodeCoords (Collector, Array slice); [] = the
+                                                               Array slice that selects nothing (Processor._is_empty_slice,
+                                                               fix f20b613): no action, no place to delete *)
   | CWrap (c : coord) (p : pcoord) (name_kw : bool).        (* .node is itself a NodeCoords *)
 
 (* ---- generic list helpers ---- *)
